@@ -23,6 +23,9 @@ type LabelCase struct {
 	Keys      []string   `json:"keys"`
 	Series    [][]string `json:"series"` // tag values per key, one row per tagged scope
 	Ops       []LabelOp  `json:"ops"`
+	// Swap: two more counters (and gauges) whose names and tag keys are each other's: NameA tagged
+	// {NameB: x} and NameB tagged {NameA: x} - two unrelated families
+	Swap [2]string `json:"swap,omitempty"`
 }
 
 type LabelOp struct {
@@ -62,6 +65,10 @@ func genLabels(t *rapid.T) LabelCase {
 		if c.valid(k) {
 			kinds = append(kinds, k)
 		}
+	}
+	if rapid.IntRange(0, 2).Draw(t, "swap?") == 0 {
+		ab := rapid.SliceOfNDistinct(rapid.SampledFrom([]string{"code", "status", "a", "b", "job", "le", "quantile", "zone"}), 2, 2, rapid.ID[string]).Draw(t, "swap")
+		c.Swap = [2]string{ab[0], ab[1]}
 	}
 	n := rapid.IntRange(1, 12).Draw(t, "nops")
 	for i := 0; i < n; i++ {
@@ -142,6 +149,22 @@ func runLabels(c LabelCase) (pbt.Outcome, error) {
 		if p != nil {
 			errs.Addf("op %d (%s with label names %v): panic %v", oi, op.K, c.Keys, p)
 		}
+	}
+	if c.Swap[0] != "" && want[c.Swap[0]] == nil && want[c.Swap[1]] == nil {
+		a, b := c.Swap[0], c.Swap[1]
+		if p := try(func() {
+			root.Tagged(map[string]string{b: "x"}).Counter(a).Inc(1)
+			root.Tagged(map[string]string{a: "x"}).Counter(b).Inc(2)
+			root.Tagged(map[string]string{b: "x"}).Gauge(a + "_g").Update(3)
+			root.Tagged(map[string]string{a: "x"}).Gauge(b + "_g").Update(4)
+		}); p != nil {
+			errs.Addf("counters/gauges %q tagged {%s} and %q tagged {%s}: panic %v", a, b, b, a, p)
+		}
+		want[a] = map[string]*val{labelKey(map[string]string{b: "x"}): {counter: 1}}
+		want[b] = map[string]*val{labelKey(map[string]string{a: "x"}): {counter: 2}}
+		want[a+"_g"] = map[string]*val{labelKey(map[string]string{b: "x"}): {gauge: 3}}
+		want[b+"_g"] = map[string]*val{labelKey(map[string]string{a: "x"}): {gauge: 4}}
+		out.Classes = append(out.Classes, "name-and-key-swapped")
 	}
 	if p := try(func() { tally.VerifReportOnce(root) }); p != nil {
 		errs.Addf("report pass panicked: %v", p)
